@@ -304,6 +304,16 @@ func ScaledFamilies(big bool) []Scaled {
 			fmt.Fprintf(&b, "print %d\n", i+2)
 		}
 		add(fmt.Sprintf("constpool-bind-%d", n), b.String()+"def blk \"nm\" { fld = 5; print fld }\ndef blk { fld = 6 }\nbind blk:last -> slice\nbind blk:all -> slice\nbind blk:first -> struct\n")
+		// runtime errors and warnings raised by instructions whose operand needs 1, 2 or 3 bytes (their position
+		// is looked up from the operand's last byte)
+		if n <= 300 || n >= 2287 {
+			pre := b.String()
+			add(fmt.Sprintf("constpool-rterr-unresolved-%d", n), pre+"print 1\n\ndef blk {\n  fld = 5\n  g =   unknown_name + 1\n}\n")
+			add(fmt.Sprintf("constpool-rterr-bindnone-%d", n), pre+"def blk { fld = 5 }\n\n  bind   nosuch -> struct\nprint 2\n")
+			add(fmt.Sprintf("constpool-rterr-bindcount-%d", n), pre+"def blk { fld = 5 }\ndef blk { fld = 6 }\n\n\tbind blk -> struct\n")
+			add(fmt.Sprintf("constpool-warn-%d", n), pre+"def blk { fld = 5 }\n\nbind blk -> struct\n\n   bind blk:first -> slice\nbind blk:last -> slice\n")
+			add(fmt.Sprintf("constpool-rterr-types-%d", n), pre+"def blk {\n fld = \"a new string\" - 1\n}\n")
+		}
 		var v strings.Builder
 		for i := 0; i < n; i++ {
 			fmt.Fprintf(&v, "var v%d=%d\n", i, i)
